@@ -386,6 +386,10 @@ class Doist(tyming.Tymist):
                     # write to doer.__func__.done read from doer.done
                     doer.__func__.done = ex.value if ex.value is not None else doer.done
                 continue  # don't append
+            except BaseException:  # enter failed
+                if deeds is not self.deeds:  # fresh deeds of extend not yet in .deeds
+                    self.exit(deeds=deeds)  # exit doers already entered by extend
+                raise
             deeds.append((dog, self.tyme, doer))  # first recur immediately
         return deeds
 
@@ -1286,6 +1290,10 @@ class DoDoer(Doer):
 
 
                 continue  # don't append already complete
+            except BaseException:  # enter failed
+                if deeds is not self.deeds:  # fresh deeds of extend not yet in .deeds
+                    self.exit(deeds=deeds)  # exit doers already entered by extend
+                raise
             deeds.append((dog, self.tyme, doer))
         return deeds
 
